@@ -149,19 +149,35 @@ func (w *Walker) Walk(
 
 	select {
 	case <-done:
-		return w.completions, nil
+		completions, _ := w.completionsSnapshot()
+		return completions, nil
 	case <-ctx.Done():
 		logger.Debugf(
 			"context cancelled, cancelling all workers",
 		)
 		w.cancelAll()
 
-		if w.failFastTriggered {
-			return w.completions, nil
+		completions, failFastTriggered := w.completionsSnapshot()
+		if failFastTriggered {
+			return completions, nil
 		} else {
-			return w.completions, ctx.Err()
+			return completions, ctx.Err()
 		}
 	}
+}
+
+// completionsSnapshot returns a copy of the completions recorded so far.
+// After a cancellation Walk returns while node routines may still be running and
+// recording completions, so the caller must not be handed the map they write to.
+func (w *Walker) completionsSnapshot() (CompletionMap, bool) {
+	w.doneMutex.Lock()
+	defer w.doneMutex.Unlock()
+
+	snapshot := make(CompletionMap, len(w.completions))
+	for nodeLabel, completion := range w.completions {
+		snapshot[nodeLabel] = completion
+	}
+	return snapshot, w.failFastTriggered
 }
 
 // cancelNode cancels a target if it is present in the graph (not idempotent!)
